@@ -39,16 +39,35 @@ def find_tlv_readers(p):
     return out
 
 
+_SUB_MEMO = {}
+
+
 def subterms(t, acc=None):
-    acc = acc if acc is not None else []
+    """all sub-tuples of a term (memoised on object identity: terms share structure)"""
     from sa.lin import S
     if isinstance(t, S):
         t = t.t
-    if isinstance(t, tuple):
-        acc.append(t)
-        for x in t:
-            if isinstance(x, (tuple, S)):
-                subterms(x, acc)
+    if not isinstance(t, tuple):
+        return [] if acc is None else acc
+    hit = _SUB_MEMO.get(id(t))
+    if hit is None or hit[0] is not t:
+        seen = {}
+        stack = [t]
+        while stack:
+            x = stack.pop()
+            if isinstance(x, S):
+                x = x.t
+            if not isinstance(x, tuple) or id(x) in seen:
+                continue
+            seen[id(x)] = x
+            for y in x:
+                if isinstance(y, (tuple, S)):
+                    stack.append(y)
+        hit = (t, list(seen.values()))
+        _SUB_MEMO[id(t)] = hit
+    if acc is None:
+        return list(hit[1])
+    acc.extend(hit[1])
     return acc
 
 
